@@ -367,7 +367,7 @@ func (sql *SqliteDb) ImportMostRecentSnapshot(targetVersion int64, traverseOrder
 	if err != nil {
 		return nil, 0, err
 	}
-	q, err := read.Prepare("SELECT tbl_name FROM changelog.sqlite_master WHERE type='table' AND name LIKE 'snapshot_%' ORDER BY name DESC")
+	q, err := read.Prepare("SELECT tbl_name FROM changelog.sqlite_master WHERE type='table' AND name LIKE 'snapshot_%' ORDER BY CAST(substr(name, 10) AS INTEGER) DESC")
 	defer func(q *sqlite3.Stmt) {
 		err = q.Close()
 		if err != nil {
